@@ -26,6 +26,24 @@ class Enum:
         return f"{self.cls}.{self.member}"
 
 
+class ClsTok:
+    """A repository class used as a value (e.g. an element of a type list)."""
+
+    __slots__ = ("name",)
+
+    def __init__(self, name):
+        self.name = name
+
+    def __eq__(self, other):
+        return isinstance(other, ClsTok) and other.name == self.name
+
+    def __hash__(self):
+        return hash(("cls", self.name))
+
+    def __repr__(self):
+        return self.name
+
+
 class Unknown:
     def __init__(self, why=""):
         self.why = why
@@ -52,13 +70,15 @@ class Trace:
 
 
 class FDE:
-    def __init__(self, repo, func, attr_env: dict, enum_classes=()):
+    def __init__(self, repo, func, attr_env: dict, enum_classes=(), env=None, inline=False, depth=0):
         self.repo = repo
         self.func = func
         self.attr = dict(attr_env)
-        self.env: dict[str, object] = {}
+        self.env: dict[str, object] = dict(env or {})
         self.trace = Trace()
         self.enum_classes = set(enum_classes)
+        self.inline = inline
+        self.depth = depth
 
     def run(self) -> Trace:
         try:
@@ -109,6 +129,11 @@ class FDE:
         if isinstance(e, ast.Name):
             if e.id in self.env:
                 return self.env[e.id]
+            target = self.repo.resolve(self.func.module, e.id)
+            if isinstance(target, ClassInfo):
+                return ClsTok(target.name)
+            if isinstance(target, ast.AST) and isinstance(target, (ast.List, ast.Tuple)):
+                return self.ev(target)
             return Unknown(f"name {e.id}")
         if isinstance(e, ast.Attribute):
             d = dotted(e)
@@ -135,7 +160,17 @@ class FDE:
                             return Unknown(d)
             return Unknown(d or norm(e))
         if isinstance(e, (ast.List, ast.Tuple, ast.Set)):
-            return [self.ev(x) for x in e.elts]
+            out = []
+            for x in e.elts:
+                if isinstance(x, ast.Starred):
+                    inner = self.ev(x.value)
+                    if isinstance(inner, list):
+                        out.extend(inner)
+                    else:
+                        out.append(Unknown("starred"))
+                else:
+                    out.append(self.ev(x))
+            return out
         if isinstance(e, ast.Dict):
             return {self._key(k): self.ev(v) for k, v in zip(e.keys, e.values)}
         if isinstance(e, ast.UnaryOp) and isinstance(e.op, ast.Not):
@@ -157,7 +192,7 @@ class FDE:
         if isinstance(e, ast.Compare) and len(e.ops) == 1:
             a, b = self.ev(e.left), self.ev(e.comparators[0])
             op = e.ops[0]
-            if isinstance(a, Unknown) or isinstance(b, Unknown) or (isinstance(b, list) and any(isinstance(x, Unknown) for x in b)):
+            if isinstance(a, Unknown) or isinstance(b, Unknown) or (isinstance(b, list) and any(isinstance(x, Unknown) for x in b)) or (isinstance(b, tuple) and b and b[0] == "call"):
                 return Unknown(norm(e))
             if isinstance(op, (ast.Eq, ast.Is)):
                 return a == b
@@ -180,6 +215,16 @@ class FDE:
                 val = ("instance", inner, args)
                 return val
             self.trace.calls.append((name or norm(e.func), args))
+            if self.inline and name and name.startswith("self.") and name.count(".") == 1 and self.func.cls is not None and self.depth < 3:
+                mname = name.split(".")[1]
+                callee = self.func.cls.methods.get(mname) or self.func.cls.find_method(mname)
+                if callee is None and mname.startswith("_" + self.func.cls.name + "__"):
+                    callee = self.func.cls.methods.get(mname[len(self.func.cls.name) + 1:])
+                if callee is not None:
+                    params = [a.arg for a in callee.node.args.args[1:]]
+                    sub = FDE(self.repo, callee, self.attr, self.enum_classes, env=dict(zip(params, args)), inline=True, depth=self.depth + 1)
+                    tr = sub.run()
+                    return tr.returned
             return ("call", name, args)
         if isinstance(e, ast.IfExp):
             c = self.ev(e.test)
